@@ -748,4 +748,39 @@ theorem C19_accepted_value_is_a_member (d : Decl) (s : Agg) (h : Reachable d s) 
   exact spec_accepted_is_member d (abs s) op x hop h2
 
 
+theorem spec_add_keeps_members (d : Decl) (v : Value) (x y : Val) (hy : member d v y = true) :
+    member d (step d v (.add x)).1 y = true := by
+  cases v with
+  | array a => cases hd : d.hi <;> simpa [step, hd] using hy
+  | list l => simpa [step] using hy
+  | bag b =>
+    simp only [step]
+    split
+    · simp only [member, decide_eq_true_eq] at hy ⊢
+      exact ((insertSorted_perm x b).map Val.key).mem_iff.mpr (List.mem_cons_of_mem _ hy)
+    · exact hy
+  | set s =>
+    simp only [step]
+    split
+    · simp only [member, decide_eq_true_eq] at hy
+      unfold setAdd
+      split
+      · simp only [member]; exact decide_eq_true hy
+      · simp only [member]
+        exact decide_eq_true (((insertSorted_perm x s).map Val.key).mem_iff.mpr (List.mem_cons_of_mem _ hy))
+    · exact hy
+
+/-- **`add` never removes a member**: whatever is IN a container stays IN it after any `add`, accepted or refused — in
+every reachable state, for BAG and SET (and trivially for ARRAY and LIST, which refuse `add`). -/
+theorem C19_add_keeps_members (d : Decl) (s : Agg) (h : Reachable d s) (x y : Val) (hy : s.contains y = true) :
+    (s.step (.add x)).1.contains y = true := by
+  have hreach : Reachable d (s.step (.add x)).1 := by
+    obtain ⟨s0, ops, hnew, rfl⟩ := h
+    exact ⟨s0, ops ++ [.add x], hnew, (after_snoc s0 ops _).symm⟩
+  rw [C19_membership_refines d _ hreach y]
+  have h1 : (step d (abs s) (.add x)).1 = abs (s.step (.add x)).1 := by rw [C19_step_refines d s h (.add x)]
+  rw [← h1]
+  exact spec_add_keeps_members d (abs s) x y (by rw [← C19_membership_refines d s h y]; exact hy)
+
+
 end StepModel.PyAgg
